@@ -807,9 +807,11 @@ struct static_array<T, ::boost::multi::dimensionality_type{0}, Alloc>  // NOLINT
 	using typename ref::value_type;
 	explicit static_array(allocator_type const& alloc) : static_array(typename static_array::extensions_type{}, alloc) {}  // a rank-0 array always holds one element: static_array() with an allocator
 
-	constexpr static_array(decay_type&& other, allocator_type const& alloc)  // 6b
-	: array_alloc{alloc}, ref{other.base_, other.extensions()} {
-		std::move(other).ref::layout_t::operator=({});
+	static_array(decay_type&& other, allocator_type const& alloc)  // 6b
+	: array_alloc{alloc}
+	, ref(static_array::allocate(static_cast<typename multi::allocator_traits<allocator_type>::size_type>(other.num_elements())), other.extensions()) {
+		// like the move constructor: a rank-0 array cannot give its element away and stay valid, so the element is moved into storage of `alloc`
+		adl_alloc_uninitialized_move_n(this->alloc(), other.data_elements(), other.num_elements(), this->data_elements());
 	}
 
 	static_array(
